@@ -22,6 +22,23 @@ CHECKS = {
             "Tolerance 1e-8*(|y|*||J^-1|| + |x|) + A*||J^-1|| with J from float64 autograd / one-sided FD at special points; rows "
             "with ||J^-1|| > 1e6, saturating chains, or conditioner outputs beyond |10| are inconclusive (counted).",
             "DESIGN.md 3/C02"),
+    "C06": ("exhaustive enumeration of MADE architectures (both copies), each decided for all weights by a sign argument "
+            "(identity activation + strictly positive weights => Jacobian entry > 0 iff an unmasked path exists); Hypothesis for "
+            "larger sizes, bit-identity under input perturbation with signed weights",
+            "Exploration, exhaustive over the named architecture grid: 12 600 networks (quick) from both MADE copies, each checked "
+            "for exact zeros of d out_block(i) / d in_{>=i} with all weights (masked positions included) positive; generated "
+            "larger networks with signed weights, relu/tanh, batch-norm in train mode, after assignment / load_state_dict / an "
+            "SGD step; triangular Jacobians of masked autoregressive transforms; MoG factorisation.",
+            "'For all weights' rests on the premise that the forward pass is masked-linear layers, elementwise maps, batch-norm "
+            "and sums; that premise is itself only tested (oracle B).", "DESIGN.md 3/C06"),
+    "C07": ("exhaustive enumeration of masks (<= 4 features, values {-1,0,0.3,1}) x 7 coupling classes x 2-D/4-D x direction "
+            "x mask container types; Hypothesis for larger masks/context/unconditional transforms; bitwise identity, metamorphic "
+            "single-input moves, Jacobian sparsity",
+            "Exploration, exhaustive over masks of <= 4 features: identity features bit-for-bit, moving one transformed input "
+            "changes only its own output (monotonically), Jacobian block structure with exact zeros across channels and pixels, "
+            "index bookkeeping consistent with mask > 0.",
+            "Other outputs compared to 1e-12 (not bitwise) because the tail scatter changes the sub-batch size; non-finite "
+            "autograd Jacobians are left to C16.", "DESIGN.md 3/C07"),
     "C09": ("Hypothesis-generated spline parameters/boxes/tail bounds evaluated on sorted grids of constructed knots, ulp "
             "neighbours, end-points and tail junction; order/range/end-point/continuity/identity-tail invariants",
             "Exploration: every spline family x 1-8 bins x generated boxes/tail bounds x parameter regimes (incl. exactly zero and "
